@@ -198,6 +198,10 @@ func runC10(c *core.Ctx) error {
 				key := fmt.Sprintf("%s#%d", base, ordOf[base])
 				ordOf[base]++
 				problems := classifyMapRange(c, an, fn, rg)
+				if len(problems) > 0 && rangedMapHasOneEntry(rg) {
+					r1.Pass(fmt.Sprintf("%s at %s: the map is tested to have exactly one entry before the loop (len == 1 on every path to it), there is one order", key, c.Pos(core.InstrPos(rg))))
+					continue
+				}
 				if len(problems) == 0 {
 					r1.Pass(fmt.Sprintf("%s at %s: body effects are order-insensitive", key, c.Pos(core.InstrPos(rg))))
 					continue
@@ -370,6 +374,55 @@ type orderProblem struct {
 
 // classifyMapRange returns the effects of the loop body that may depend on
 // the iteration order.
+// rangedMapHasOneEntry: the range instruction is dominated by the edge of a test `len(m) == 1` / `len(m) != 1` on
+// which the length is one, for the same map value m (same SSA value, or a reload of the same field path with no call
+// in between that could have changed it is not attempted: identity or structural equality only).
+func rangedMapHasOneEntry(rg *ssa.Range) bool {
+	fn := rg.Parent()
+	for _, b := range fn.Blocks {
+		for _, in := range b.Instrs {
+			bo, ok := in.(*ssa.BinOp)
+			if !ok || (bo.Op != token.EQL && bo.Op != token.NEQ) {
+				continue
+			}
+			k, isC := core.ConstInt(bo.Y)
+			lc, isCall := bo.X.(*ssa.Call)
+			if !isC || !isCall || k != 1 {
+				continue
+			}
+			bi, isB := lc.Common().Value.(*ssa.Builtin)
+			if !isB || bi.Name() != "len" || len(lc.Common().Args) != 1 {
+				continue
+			}
+			m := lc.Common().Args[0]
+			if m != rg.X && !sameFieldLoadDeep(m, rg.X) {
+				continue
+			}
+			for _, eb := range core.EdgeBlocks(bo, bo.Op == token.EQL) {
+				if eb == rg.Block() || eb.Dominates(rg.Block()) {
+					return true
+				}
+			}
+		}
+	}
+	return false
+}
+
+// sameFieldLoadDeep: two loads of the same field chain rooted at the same value (cfg.Error.Contents read twice).
+func sameFieldLoadDeep(a, b ssa.Value) bool {
+	la, ok1 := a.(*ssa.UnOp)
+	lb, ok2 := b.(*ssa.UnOp)
+	if !ok1 || !ok2 || la.Op != token.MUL || lb.Op != token.MUL {
+		return false
+	}
+	fa, ok1 := la.X.(*ssa.FieldAddr)
+	fb, ok2 := lb.X.(*ssa.FieldAddr)
+	if !ok1 || !ok2 || fa.Field != fb.Field {
+		return false
+	}
+	return fa.X == fb.X || sameFieldLoadDeep(fa.X, fb.X)
+}
+
 func classifyMapRange(c *core.Ctx, an *effects.Analysis, fn *ssa.Function, rg *ssa.Range) []orderProblem {
 	var next *ssa.Next
 	for _, ref := range *rg.Referrers() {
